@@ -152,17 +152,31 @@ def check_1d(case, ctx: Ctx):
         if op[0] == "fill":
             v = resolve_value(op[1], w, edges_now)
             wt = op[2]
-            r = ctx.call(f"fill({v!r})", h.fill, v) if wt is None else ctx.call(f"fill({v!r},{wt})", h.fill, v, wt)
+            arg = v
+            if case.get("scalar_type") == "float32" and abs(v) < 1e30:
+                # the value as a single-precision numpy scalar (e.g. an element of a float32 array): it is the
+                # number float(np.float32(v)), and that number has to end up inside a bin
+                arg = np.float32(v)
+                v = float(arg)
+                ctx.label("float32_scalar")
+            elif case.get("scalar_type") == "int" and float(v).is_integer() and abs(v) < 2 ** 50:
+                arg = int(v)
+            r = ctx.call(f"fill({arg!r})", h.fill, arg) if wt is None else ctx.call(f"fill({arg!r},{wt})", h.fill, arg, wt)
             values.append(v)
             weights.append(1 if wt is None else wt)
             new = [v]
         else:
             vs = [resolve_value(s, w, edges_now) for s in op[1]]
             ws = op[2]
+            batch = np.array(vs, dtype=float)
+            if case.get("scalar_type") == "float32" and all(abs(x) < 1e30 for x in vs):
+                batch = batch.astype(np.float32)
+                vs = [float(x) for x in batch]
+                ctx.label("float32_batch")
             if ws is None:
-                ctx.call(f"fill_n({vs})", h.fill_n, np.array(vs, dtype=float))
+                ctx.call(f"fill_n({vs})", h.fill_n, batch)
             else:
-                ctx.call(f"fill_n({vs},{ws})", h.fill_n, np.array(vs, dtype=float),
+                ctx.call(f"fill_n({vs},{ws})", h.fill_n, batch,
                          np.array(ws, dtype=np.int64 if all(isinstance(x, int) for x in ws) else np.float64))
             values += vs
             weights += [1] * len(vs) if ws is None else list(ws)
@@ -239,7 +253,8 @@ def histories_1d(draw, tier="quick"):
     prefill = draw(st.one_of(st.none(), st.lists(value_specs(30, allow_edge=False), min_size=1, max_size=6)))
     ops = draw(st.lists(op(), min_size=1, max_size=14 if tier == "thorough" else 8))
     peek_first = draw(st.sampled_from([None, None, "bins", "bin_widths", "bin_centers", "bin_left_edges", "densities"]))
-    return {"w": w, "align": align, "shift": shift, "prefill": prefill, "ops": ops, "peek_first": peek_first}
+    return {"w": w, "align": align, "shift": shift, "prefill": prefill, "ops": ops, "peek_first": peek_first,
+            "scalar_type": draw(st.sampled_from([None, None, "float32", "int"]))}
 
 
 # ---------------------------------------------------------------------------------
@@ -318,7 +333,13 @@ def check_nd(case, ctx: Ctx):
         if op[0] == "fill":
             row = [resolve_value(s, ws_[j], edges_now[j]) for j, s in enumerate(op[1])]
             wt = op[2]
-            ctx.call(f"fill({row})", h.fill, row) if wt is None else ctx.call(f"fill({row},{wt})", h.fill, row, wt)
+            if case.get("scalar_type") == "float32" and all(abs(x) < 1e30 for x in row):
+                row32 = np.array(row, dtype=np.float32)  # a point taken out of a single-precision array
+                row = [float(x) for x in row32]
+                ctx.label("float32_point")
+                ctx.call(f"fill({row32})", h.fill, row32) if wt is None else ctx.call(f"fill({row32},{wt})", h.fill, row32, wt)
+            else:
+                ctx.call(f"fill({row})", h.fill, row) if wt is None else ctx.call(f"fill({row},{wt})", h.fill, row, wt)
             rows.append(row)
             weights.append(1 if wt is None else wt)
             new = [row]
@@ -326,6 +347,10 @@ def check_nd(case, ctx: Ctx):
             rs = [[resolve_value(s, ws_[j], edges_now[j]) for j, s in enumerate(r)] for r in op[1]]
             wl = op[2]
             arr = np.array(rs, dtype=float).reshape(len(rs), d)
+            if case.get("scalar_type") == "float32" and all(abs(x) < 1e30 for r_ in rs for x in r_):
+                arr = arr.astype(np.float32)
+                rs = [[float(x) for x in r_] for r_ in arr]
+                ctx.label("float32_batch")
             if wl is None:
                 ctx.call(f"fill_n({rs})", h.fill_n, arr)
             else:
@@ -386,7 +411,7 @@ def histories_nd(draw, tier="quick"):
     prefill = draw(st.one_of(st.none(), st.lists(pre_row, min_size=1, max_size=4)))
     ops = draw(st.lists(op(), min_size=1, max_size=10 if tier == "thorough" else 6))
     return {"w": ws_, "prefill": prefill, "ops": ops, "peek_first": draw(st.sampled_from([None, None, "bins", "bin_sizes", "densities"])),
-            "empty_as": draw(st.sampled_from(["none", "zero_rows"]))}
+            "empty_as": draw(st.sampled_from(["none", "zero_rows"])), "scalar_type": draw(st.sampled_from([None, None, "float32"]))}
 
 
 # ---------------------------------------------------------------------------------
